@@ -662,7 +662,7 @@ class C18(Property):
                        "feature:shape-group", "feature:set-based", "export-compared-xml", "export-compared-pb",
                        "cell:q_obstaclexcustom-state-without-orientation", "cell:exportxdefaultdict-goal-table",
                        "cell:renderxcustom-state-without-orientation", "op-raised:goal", "op-raised:export", "render-flag:draw_intersections", "render-flag:draw_icon",
-                       "render-animation-with-focus-obstacle"]
+                       "render-animation-with-focus-obstacle", "feature:tiny-coordinates"]
     assumptions = [
         "the snapshot reads public accessors only and never touches derived data whose computation is itself one of "
         "the side effects hunted (occupancy_set, distance, shapely_object)",
@@ -725,6 +725,28 @@ class C18(Property):
                             s.pop(kx, None)
                     features.add("uncertain-state")
             obstacles.append(ob)
+        if rng.chance(0.25):
+            # a map whose origin lies (almost) on a lanelet vertex: coordinates that are tiny but not zero, and signed
+            # zeros - values that "tidy-up" code likes to normalise in place
+            la0 = rng.pick(net["lanelets"])
+            v0 = rng.pick(la0["left"] + la0["right"])
+            dx, dy = -v0[0] + rng.choice([3e-9, -7e-10, 0.0]), -v0[1] + rng.choice([-2e-9, 5e-10, -0.0])
+            features.add("tiny-coordinates")
+
+            def shift(node, key=None):
+                if isinstance(node, dict):
+                    if node.get("t") == "poly" and "v" in node:
+                        return dict(node, v=[[x + dx, y + dy] for x, y in node["v"]])
+                    return {k: shift(v, k) for k, v in node.items()}
+                if isinstance(node, list):
+                    if key in ("left", "center", "right") and node and isinstance(node[0], list):
+                        return [[x + dx, y + dy] for x, y in node]
+                    if key in ("pos", "c", "start", "end") and len(node) == 2 and all(isinstance(x, float) for x in node):
+                        return [node[0] + dx, node[1] + dy]
+                    return [shift(v, key) for v in node]
+                return node
+            net = shift(net)
+            obstacles = shift(obstacles)
         pps = [gen.gen_planning_problem(rng, ids.take(), net) for _ in range(rng.randint(1, 2))]
         for pp in pps:
             if pp["goal_lanelets"] is not None:
